@@ -353,6 +353,8 @@ func runC06(c *Ctx) {
 	runC06Streets(c, ea, eg, handlerOut)
 	runC06Start(c, ea, eg, startOut)
 	runC06Close(c, ea, eg, handlerOut, guardOwner, terminal)
+	// once closed, no seat holds offers: no betting action can be accepted any more (shared with C04)
+	runNoStaleOffers(c, ea, "closed-accepts-nothing", terminal)
 }
 
 func onlyWaits(os []outcome) bool {
